@@ -101,6 +101,20 @@ CLAIMED['C16'] = (
     'Spectrum.integrate is an uninterpreted function; InterpolatedSF a recording stub; pixel counts concrete per job; '
     'sequences of setters are covered by induction over single setters from a fresh-equivalent state.',
     'DESIGN.md §4 C16', TECH)
+CLAIMED['C06'] = (
+    'All add_/get_ functions of the 14 repository sections are executed from source on an in-memory store with symbolic '
+    'keys: element symbols, transition levels and the repository path are z3 strings (carried through the real string '
+    'formatting code as marker strings), charges / metastables z3 integers, tables opaque tagged values. File and JSON-key '
+    'lookups are decided by the solver on the location terms (z3, cvc5 as second solver). Proved per family: read-back of '
+    'what was written; last write wins with keys compared by lower-cased form; a key differing in any one component is '
+    'never found and writing it leaves the first key untouched; reading through any other family raises RuntimeError; with '
+    'two unconstrained keys a read succeeds only if all components are equal; every written path has the passed '
+    'repository path as prefix (None -> default); an update rejected for an invalid charge writes nothing. The 11 '
+    'install_adf* front-ends and install_files route to the right update_* with repository_path forwarded.',
+    'symbols alphanumeric after lower-casing, levels without - and > (stated precondition making encode_transition '
+    'injective); LOWER uninterpreted (idempotent on canonical atoms); JSON float round-trip and the real file system are '
+    'outside; interleavings are covered as: write, overwrite in another spelling, write of a neighbouring key, reads.',
+    'DESIGN.md §4 C06', TECH + '; z3 + cvc5 string theory for location terms')
 NOT_YET = {}
 props = [json.loads(l) for l in open(os.path.join(HERE, 'properties.jsonl'))]
 checks, na = [], []
